@@ -156,11 +156,16 @@ def invariants(con, ownership=True):
                 out.append(("static-with-source", f"{key[n]} ({FS[state]}) has sources {[key[s] for s in srcs]}"))
     for n, (_, state, deferred, holding, has_hash, need, implied) in steps.items():
         det = node[n][3]
-        # 5. attached SUCCEEDED step has only BUILT/VOLATILE attached outputs
-        if state == 23 and not det:
+        # 5. a SUCCEEDED step has only BUILT/VOLATILE outputs; for an attached step its attached
+        # outputs, for a detached step (which can be recycled as SUCCEEDED, with its outputs)
+        # the outputs that are still its own products
+        if state == 23:
             for s, k in deps:
-                if s == n and not node[k][3] and files[k][0] not in (16, 18):
-                    out.append(("succeeded-with-unbuilt-output", f"{key[n]} -> {key[k]} ({FS[files[k][0]]})"))
+                if s != n or k not in files or files[k][0] in (16, 18):
+                    continue
+                if (not det and not node[k][3]) or (det and node[k][3] and node[k][2] == n):
+                    out.append(("succeeded-with-unbuilt-output", f"{key[n]} -> {key[k]} ({FS[files[k][0]]})"
+                                + (" [detached]" if det else "")))
         # 7. _has_hash iff step_hash row; FAILED has none
         if bool(has_hash) != (n in hashes):
             out.append(("has-hash-flag", f"{key[n]}: _has_hash={has_hash}, row={n in hashes}"))
